@@ -229,7 +229,9 @@ var backendURL, _ = url.Parse("http://backend.example:80")
 
 func buildStack(layers []layerSpec, inner http.Handler) (http.Handler, error) {
 	h := inner
-	extract, _ := utils.NewExtractor("client.ip")
+	// one source for everybody: the loopback server may listen on 127.0.0.1 or, when that fails under port pressure, on
+	// [::1], and the request that uses up the rate limiter's token must count for the same source as the real one
+	extract := utils.ExtractorFunc(func(*http.Request) (string, int64, error) { return "client", 1, nil })
 	for i := len(layers) - 1; i >= 0; i-- {
 		l := layers[i]
 		next := h
@@ -516,6 +518,17 @@ func (c *stackComp) Run(h *hlib.History) ([]hlib.Mon, bool) {
 		var flushes int32
 		badCookies := (len(acts)+len(layers))%2 == 0
 		r := exchange(recording(top, &flushes), proto, badCookies)
+		for try := 0; try < 5 && resourceTrouble(r.err); try++ {
+			// the loopback ran out of ports (thousands of one-shot servers and connections): not the stack's doing; wait, rebuild, redo
+			hlib.Count("exchanges_redone_after_port_exhaustion", 1)
+			time.Sleep(time.Duration(200*(try+1)) * time.Millisecond)
+			p = &probe{}
+			if top, err = buildStack(layers, scripted(acts, p)); err != nil {
+				return nil, false
+			}
+			atomic.StoreInt32(&flushes, 0)
+			r = exchange(recording(top, &flushes), proto, badCookies)
+		}
 		inv := int64(atomic.LoadInt32(&p.invocations))
 		h.Obs = append(h.Obs, []int64{r.hijacked, r.status, inv, r.bodyLen, r.bodyHash, r.nh, r.hh, r.cookie, int64(atomic.LoadInt32(&flushes))})
 		add := func(format string, a ...interface{}) {
@@ -575,6 +588,11 @@ func (c *stackComp) Run(h *hlib.History) ([]hlib.Mon, bool) {
 		}
 	}
 	return mons, true
+}
+
+func resourceTrouble(e string) bool {
+	return strings.Contains(e, "cannot assign requested address") || strings.Contains(e, "too many open files") ||
+		strings.Contains(e, "address already in use")
 }
 
 func describeLayers(layers []layerSpec) string {
